@@ -56,6 +56,11 @@ let bvv_of = function L [v; w] -> { bvalue = z_a v; bbits = z_a w } | _ -> failw
 let bvv_sexp x = L [a_z x.bvalue; a_z x.bbits]
 let bool_sexp b = A (if b then "1" else "0")
 
+let fe_of = function
+  | L [L cs; L seen] -> { cs = List.map expr_of cs; seen = List.map expr_of seen }
+  | _ -> failwith "fe"
+let fe_sexp s = L [L (List.map sexp_of_expr s.cs); L (List.map sexp_of_expr s.seen)]
+
 let fuel = nat_of_int 60
 
 (* the generated concrete functions, by python name *)
@@ -147,6 +152,21 @@ let handle = function
   | L [A "chop"; e; b] -> res_sexp (fun l -> L (List.map sexp_of_expr l)) (chop (mk fuel) (expr_of e) (z_a b))
   | L [A "get_bytes"; e; i; n] -> res_sexp sexp_of_expr (get_bytes (mk fuel) (expr_of e) (z_a i) (z_a n))
   | L [A "excavate"; e] -> res_sexp sexp_of_expr (excavate (mk fuel) (expr_of e))
+  | L [A "fe_add"; st; L nw] -> fe_sexp (fe_add (fe_of st) (List.map expr_of nw))
+  | L [A "fe_merge"; L sts; L conds] ->
+    (match List.map fe_of sts with
+     | s :: others -> res_sexp fe_sexp (fe_merge (mk fuel) s others (List.map expr_of conds))
+     | [] -> failwith "fe_merge")
+  | L [A "fe_merge_anc"; st; L conds] -> res_sexp fe_sexp (fe_merge_anc (mk fuel) (fe_of st) (List.map expr_of conds))
+  | L [A "fe_combine"; L sts] ->
+    (match List.map fe_of sts with s :: others -> fe_sexp (combine_fe s others) | [] -> failwith "fe_combine")
+  | L [A "fe_split"; L cs] ->
+    let (gs, conc) = split_constraints (List.map expr_of cs) in
+    L [L (List.map (fun (vs, idx) ->
+            L [L (List.map (fun (b, n) -> L [A (if b then "1" else "0"); a_z n]) vs);
+               L (List.map (fun i -> A (string_of_int (int_of_nat i))) idx)]) gs);
+       L (List.map sexp_of_expr conc)]
+  | L [A "fe_split_fe"; st] -> L (List.map fe_sexp (split_fe (fe_of st)))
   | L [A "meta"; e] ->
     let x = expr_of e in
     L [A (if symbolic x then "1" else "0"); A (string_of_int (int_of_nat (depth x))); a_z (elen x)]
